@@ -356,6 +356,10 @@ def correspond(ctx, model):
     # Convolve closed-form arithmetic with the Lean model
     S.conv_tie(ctx, env, model, ctx.n(60, 1500))
     _mark('convolve')
+    # default precision (round 6): a sample of the table / random trees / stacks at float32 / complex64 and with the dtype
+    # arguments omitted, in a subprocess WITHOUT jax_enable_x64; the worker evaluates the property itself
+    S.nox64_stream(ctx, env, table, ctx.n(220, 2500), ctx.n(30, 300), mixed_dtype_findings=False)
+    _mark('default-precision')
     # histories: the same operator objects used first inside jit, then eagerly
     jit_history(ctx, env)
     _mark('jit-history')
